@@ -26,7 +26,7 @@ MUTATING = {"create", "wopen", "rename", "remove", "mkdir", "rmdir", "chmod", "t
 
 
 class Op:
-    __slots__ = ("kind", "func", "path", "path2", "mode", "fd", "seq", "thread")
+    __slots__ = ("kind", "func", "path", "path2", "mode", "fd", "seq", "thread", "partial")
 
     def __init__(self, kind, func, path=None, path2=None, mode=None, fd=None):
         self.kind = kind
@@ -37,6 +37,7 @@ class Op:
         self.fd = fd
         self.seq = None
         self.thread = None
+        self.partial = None     # for descriptor-level writes: callable that performs only the first half
 
     def rel(self, root):
         def r(p):
@@ -292,6 +293,52 @@ def _flock(fd, operation):
     return _run(op, real, (fd, operation), {})
 
 
+def _fd_path(fd):
+    try:
+        return os.readlink(f"/proc/self/fd/{fd}")
+    except OSError:
+        return f"<fd {fd}>"
+
+
+def _wrap_fd_write(name, real, kind="write", out_index=0, halver=None):
+    """Descriptor-level writers (os.write, os.pwrite, os.writev, os.sendfile, os.copy_file_range, os.ftruncate):
+    visible to controllers that ask for write operations, for descriptors open on a file under the controller's
+    root. These bypass Python's file objects (shutil's fast copy, a hand-written unbuffered writer)."""
+    def w(*a, **k):
+        ctl = _active()
+        if ctl is None or not getattr(ctl, "wants_write_ops", False) or len(a) <= out_index or not isinstance(a[out_index], int):
+            return real(*a, **k)
+        path = _fd_path(a[out_index])
+        root = getattr(ctl, "root", None)
+        if root is not None and not under(root, path):
+            return real(*a, **k)
+        op = Op(kind, name, path, fd=a[out_index])
+        if halver is not None:
+            op.partial = lambda: halver(real, a, k)
+        return _run(op, real, a, k)
+    w.__name__ = real.__name__
+    w.__wrapped__ = real
+    return w
+
+
+def _half_write(real, a, k):
+    data = bytes(a[1])
+    if len(data) >= 2:
+        real(a[0], data[:len(data) // 2], *a[2:], **k)
+
+
+def _half_sendfile(real, a, k):
+    # os.sendfile(out_fd, in_fd, offset, count)
+    if len(a) >= 4 and isinstance(a[3], int):
+        try:
+            size = os.fstat(a[1]).st_size
+        except OSError:
+            size = a[3]
+        n = min(a[3], size) // 2
+        if n > 0:
+            real(a[0], a[1], a[2], n)
+
+
 def install():
     """Idempotent. Must be called before the code under test runs in a controlled thread."""
     global _installed
@@ -318,6 +365,13 @@ def install():
     _io.open = w
     _real["fcntl.flock"] = fcntl.flock
     fcntl.flock = _flock
+    for name, kind, idx, halver in (("write", "write", 0, _half_write), ("pwrite", "write", 0, _half_write),
+                                    ("writev", "write", 0, None), ("sendfile", "write", 0, _half_sendfile),
+                                    ("copy_file_range", "write", 1, None), ("ftruncate", "truncate", 0, None)):
+        if hasattr(os, name):
+            real_fn = getattr(os, name)
+            _real["os." + name] = real_fn
+            setattr(os, name, _wrap_fd_write("os." + name, real_fn, kind, idx, halver))
     import time as _time
     _real["time.sleep"] = _time.sleep
 
